@@ -6,6 +6,7 @@ import (
 	"go/token"
 	"go/types"
 	"os"
+	"sort"
 	"strconv"
 	"strings"
 
@@ -577,8 +578,147 @@ func (w *c14Walker) index(x *ast.IndexExpr) {
 			}
 		}
 	}
+	// a parameter of the function that is never assigned: decided per call site (see c14ParamIndex)
+	if v := a.varOf(x.Index); v != nil {
+		if pos := a.paramPos(v); pos >= 0 {
+			w.site(x, x.Pos(), key+"["+types.ExprString(x.Index)+"]", func(*c14Facts, *c14Loc) bool { return false },
+				"non-constant index of "+key+" (no bound on the index is derived)")
+			if st := a.siteAt[x]; st != nil && w.emit {
+				st.byPar = &c14ParamIndex{key: key, off: off, pos: pos, name: v.Name(), den: den}
+			}
+			return
+		}
+	}
 	w.site(x, x.Pos(), key+"["+types.ExprString(x.Index)+"]", func(*c14Facts, *c14Loc) bool { return false },
 		"non-constant index of "+key+" (no bound on the index is derived)")
+}
+
+// paramPos: position of v among the flattened parameters of the function when v
+// is an integer parameter that is never assigned, incremented or has its
+// address taken anywhere in the body (nested literals included); -1 otherwise.
+func (a *c14Fn) paramPos(v *types.Var) int {
+	if v == nil || a.f.Type == nil || a.f.Type.Params == nil {
+		return -1
+	}
+	if b, isB := v.Type().Underlying().(*types.Basic); !isB || b.Info()&types.IsInteger == 0 {
+		return -1
+	}
+	pos, k := -1, 0
+	for _, fld := range a.f.Type.Params.List {
+		if len(fld.Names) == 0 {
+			k++
+			continue
+		}
+		for _, nm := range fld.Names {
+			if a.info.Defs[nm] == v {
+				pos = k
+			}
+			k++
+		}
+	}
+	if pos < 0 {
+		return -1
+	}
+	if _, variadic := a.f.Type.Params.List[len(a.f.Type.Params.List)-1].Type.(*ast.Ellipsis); variadic {
+		return -1
+	}
+	written := false
+	ast.Inspect(a.f.Body, func(n ast.Node) bool {
+		switch s := n.(type) {
+		case *ast.AssignStmt:
+			for _, l := range s.Lhs {
+				if a.varOf(l) == v {
+					written = true
+				}
+			}
+		case *ast.IncDecStmt:
+			if a.varOf(s.X) == v {
+				written = true
+			}
+		case *ast.UnaryExpr:
+			if s.Op == token.AND && a.varOf(s.X) == v {
+				written = true
+			}
+		case *ast.RangeStmt:
+			if a.varOf(s.Key) == v || a.varOf(s.Value) == v {
+				written = true
+			}
+		}
+		return !written
+	})
+	if written {
+		return -1
+	}
+	return pos
+}
+
+// paramIndexOK discharges a c14ParamIndex obligation of function a: every call
+// site of a (all of them are analysed: root == 0) passes a constant, and the
+// length needed for that constant is established there in every arm.
+func (e *c14Eng) paramIndexOK(a *c14Fn, st *c14Site) (bool, string) {
+	pi := st.byPar
+	what := "index of " + pi.key + " by the parameter " + pi.name
+	switch {
+	case a.root != 0 || a.multi:
+		return false, what + " — the callers of the function are not all known (exported to C, used as a value, or no transaction parameter): no bound on " + pi.name + " is derived"
+	case !pi.den:
+		return false, what + " — the indexed value is not read from the transaction the function works on"
+	}
+	// the call expressions the call graph knows for this function
+	want := map[*ast.CallExpr]bool{}
+	for _, ed := range e.cg.In[a.f] {
+		if ed.Call == nil || ed.Caller == nil || e.skipSites[ed.Caller.TopDecl().Name()] != "" {
+			continue
+		}
+		if b := e.fns[ed.Caller]; b != nil && b.in != nil {
+			if nd := b.g.NodeContaining(ed.Call.Pos()); nd != nil && nd.ID < len(b.in) && b.in[nd.ID] == nil {
+				continue // the call site is unreachable in its function
+			}
+		}
+		want[ed.Call] = true
+	}
+	n := 0
+	bad := make([]bool, e.K)
+	nbad := 0
+	var consts []string
+	for _, b := range e.order {
+		if e.skipSites[b.f.TopDecl().Name()] != "" {
+			continue
+		}
+		for _, ct := range b.contrib {
+			if ct.callee != a.f || ct.call == nil {
+				continue
+			}
+			delete(want, ct.call)
+			n++
+			if ct.call.Ellipsis.IsValid() || pi.pos >= len(ct.call.Args) {
+				return false, what + " — the call at " + e.p.Pos(ct.call.Pos()) + " does not pass " + pi.name + " as a plain argument"
+			}
+			c, isC := c14ConstInt(b.info, ct.call.Args[pi.pos])
+			if !isC {
+				return false, what + " — the call at " + e.p.Pos(ct.call.Pos()) + " passes " + types.ExprString(ct.call.Args[pi.pos]) + ", which is not a constant (no bound is derived)"
+			}
+			consts = append(consts, strconv.Itoa(c))
+			for k, f := range ct.arms {
+				if f != nil && f.min[pi.key] <= pi.off+c {
+					if !bad[k] {
+						nbad++
+					}
+					bad[k] = true
+				}
+			}
+		}
+	}
+	if len(want) > 0 {
+		for call := range want {
+			return false, what + " — the call at " + e.p.Pos(call.Pos()) + " is not part of the analysis"
+		}
+	}
+	if nbad > 0 {
+		return false, what + " needs len(" + pi.key + ") > " + pi.name + " at every call site — not established for " + e.describe(bad)
+	}
+	sort.Strings(consts)
+	return true, what + " — every one of the " + strconv.Itoa(n) + " call sites passes a constant (" + strings.Join(consts, ",") + ") below the length established at that call site, in every arm that reaches it"
 }
 
 func (w *c14Walker) sliceOp(x *ast.SliceExpr) {
@@ -797,7 +937,7 @@ func (w *c14Walker) call(x *ast.CallExpr) {
 					arms[k] = f
 				}
 			}
-			a.contrib = append(a.contrib, c14Contrib{callee: c, arms: arms})
+			a.contrib = append(a.contrib, c14Contrib{callee: c, arms: arms, call: x})
 		}
 	} else {
 		// make sure callees are known to the engine
